@@ -80,6 +80,8 @@ impl DB {
                 .map(|err| err.to_string()),
             writer_queue_len: guard.writer_queue.len(),
             manual_compaction_pending: guard.maybe_manual_compaction.is_some(),
+            needs_compaction: guard.version_set.needs_compaction(),
+            shutting_down: self.is_shutting_down.load(Ordering::Acquire),
         }
     }
 
